@@ -34,6 +34,8 @@ SHEET_NAMES_EXTRA = {
     'digit': ['1st', '2024'],
     'punct': ['Sh-1', 'a+b', 'x(y)'],
     'apostrophe': ["It's", "O'k"],
+    # letters whose upper-casing cannot be undone by lower-casing (sheet titles are matched case-insensitively)
+    'casefold': ['Ma\u00dfe', 'stra\u00dfe1'],
 }
 # excluded by construction elsewhere (they are finding 11): digit-leading, punctuation
 NUM_CONST = [0.0, 1.0, 2.0, 3.0, 5.0, 7.0, -1.0, -4.0, 0.5, 2.5, -1.5, 10.0, 100.0, 0.25]
